@@ -184,3 +184,46 @@ Proof. exact ex_stale_result. Qed.
 Example c14_fs_instance_trailing_sep :
   remove_path ex_tree (s_abs [n_root; n_out] ++ [47]) = (ex_tree, Some ENOTDIR).
 Proof. exact ex_remove_link_trailing_sep. Qed.
+
+(* ------ ANY tree, ANY path: links on the way, "." and ".." included (no scope premise at all) ------ *)
+
+(* LocalFileSystem::remove either changes nothing, or the path resolves - as the kernel does it, a final link not
+   followed - to a canonical location L and everything that changes lies at or beneath L *)
+Theorem c14_fs_remove_only_beneath_target : forall fs cs trail fs' r,
+  wf fs = true -> remove fs cs trail = (fs', r) ->
+  wf fs' = true /\ (fs' = fs \/ exists L, walk maxlinks fs false [] cs = WOk L /\ below L fs' fs).
+Proof. exact remove_below. Qed.
+Print Assumptions c14_fs_remove_only_beneath_target.
+
+(* the premise asked for, stated exactly: "no link on the way to a deleted path leaves the roots" = the location
+   that each listed path names in the tree lies at or beneath a root.  Then nothing beneath none of the roots changes. *)
+Theorem c14_fs_nothing_outside_roots_physical : forall fs ds roots q,
+  wf fs = true ->
+  (forall d L, In d ds -> walk maxlinks fs false [] (comps d) = WOk L -> inside roots L = true) ->
+  inside roots q = false ->
+  option_map shallow (get (stale_apply fs ds) q) = option_map shallow (get fs q).
+Proof. exact stale_apply_physical. Qed.
+Print Assumptions c14_fs_nothing_outside_roots_physical.
+
+(* the lexical scope meets that premise (so c14_fs_nothing_outside_roots is the special case) *)
+Theorem c14_fs_scope_meets_physical_premise : forall fs prior expected roots,
+  roots <> [] -> stale_scope fs (to_delete prior expected roots) ->
+  forall d L, In d (to_delete prior expected roots) -> walk maxlinks fs false [] (comps d) = WOk L -> inside roots L = true.
+Proof. exact scope_inside. Qed.
+Print Assumptions c14_fs_scope_meets_physical_premise.
+
+(* non-vacuity: a listed path through a link that stays inside the root meets the premise; the witness of
+   c14_fs_link_on_the_way_refuted is exactly a path whose location is outside *)
+Example c14_fs_instance_physical :
+  wf ex_inside = true /\
+  (forall d L, In d [s_abs [n_root; n_lnk; n_x]] -> walk maxlinks ex_inside false [] (comps d) = WOk L ->
+               inside [s_abs [n_root]] L = true) /\
+  inside [s_abs [n_root]] [n_else; n_x] = false /\
+  get (stale_apply ex_inside [s_abs [n_root; n_lnk; n_x]]) [n_root; n_real; n_x] = None /\
+  get (stale_apply ex_inside [s_abs [n_root; n_lnk; n_x]]) [n_else; n_x] = Some (File 8).
+Proof. exact ex_physical_instance. Qed.
+Example c14_fs_instance_physical_outside :
+  walk maxlinks ex_through false [] (comps (s_abs [n_root; n_lnk; n_x])) = WOk [n_else; n_x] /\
+  inside [s_abs [n_root]] [n_else; n_x] = false /\
+  inside [s_abs [n_root]] [n_root; n_lnk] = true.
+Proof. exact ex_physical_premise. Qed.
